@@ -11,7 +11,7 @@ CONSTANTS Timeout,      \* reply time-out of the communicator (tenths)
 VARIABLES open,       \* caller -> [kind, gids, delays, t] of the call in progress (set of records with field i)
           seen,       \* sequence of gids in the order the device received them
           rtime,      \* set of [g, t]: when the device received command g
-          lastAtt,    \* time of the last connect attempt, 0 = none relevant
+          lastAtt,    \* time of the last connect attempt, -1 = none yet
           connected,  \* last announced state
           closedAt,   \* 0 or time the device closed the connection (not yet reconnected)
           cbs,        \* callbacks seen since the last successful reconnect (sequence of names)
@@ -23,7 +23,7 @@ VARIABLES open,       \* caller -> [kind, gids, delays, t] of the call in progre
           devs
 cvars == <<open, seen, rtime, lastAtt, connected, closedAt, cbs, recon, hadLoss, ncb, hsent, void, devs>>
 
-CInit == /\ open = {} /\ seen = <<>> /\ rtime = {} /\ lastAtt = 0 /\ connected = FALSE /\ closedAt = 0
+CInit == /\ open = {} /\ seen = <<>> /\ rtime = {} /\ lastAtt = 0 - 1 /\ connected = FALSE /\ closedAt = 0
          /\ cbs = <<>> /\ recon = FALSE /\ devs = {} /\ hadLoss = FALSE /\ ncb = 0 /\ hsent = {} /\ void = FALSE
 
 TimeOf(g) == LET r == {x \in rtime : x.g = g} IN IF r = {} THEN 0 ELSE (CHOOSE x \in r : TRUE).t
@@ -79,15 +79,15 @@ RetFail(i, exc, t) ==
 
 (* connection attempts *)
 AttemptBase(ok, t) ==
-   /\ lastAtt' = (IF ok THEN 0 ELSE t)      \* after a success the next attempt (after a loss) is free
+   /\ lastAtt' = t                            \* every attempt counts, successful or not
    /\ closedAt' = (IF ok THEN 0 ELSE closedAt)
    /\ recon' = (ok /\ hadLoss)                                    \* a success after a failure or loss is a reconnect
    /\ hadLoss' = (IF ok THEN FALSE ELSE TRUE)
    /\ cbs' = (IF ok THEN <<>> ELSE cbs)
    /\ (recon => Len(cbs) = ncb)                                  \* previous reconnect ran all its callbacks
    /\ UNCHANGED <<open, seen, rtime, connected, ncb, hsent, void>>
-Attempt(ok, t) == (lastAtt = 0 \/ t >= lastAtt + PollInt) /\ AttemptBase(ok, t) /\ UNCHANGED devs
-Dev_NoRateLimit(ok, t) == lastAtt > 0 /\ t < lastAtt + PollInt /\ AttemptBase(ok, t)
+Attempt(ok, t) == (lastAtt < 0 \/ t >= lastAtt + PollInt) /\ AttemptBase(ok, t) /\ UNCHANGED devs
+Dev_NoRateLimit(ok, t) == lastAtt >= 0 /\ t < lastAtt + PollInt /\ AttemptBase(ok, t)
                           /\ devs' = devs \cup {"NoRateLimit"}
 Callback(name) == /\ recon /\ ~\E n \in 1 .. Len(cbs) : cbs[n] = name     \* at most once per reconnect
                   /\ cbs' = Append(cbs, name)
